@@ -230,8 +230,14 @@ func (g *Generator) generateFlattenFieldMarshal(gf *protogen.GeneratedFile, info
 	gf.P("// Flatten field: ", field.Desc.Name())
 	gf.P("if x.", goName, " != nil {")
 	gf.P(`delete(raw, "`, jsonName, `")`)
-	gf.P("// Use json.Marshal to invoke child's MarshalJSON (annotation composability)")
-	gf.P("childData, childErr := json.Marshal(x.", goName, ")")
+	gf.P("// Use the child's MarshalJSON if it has one (annotation composability), protojson otherwise")
+	gf.P("var childData []byte")
+	gf.P("var childErr error")
+	gf.P("if jm, ok := any(x.", goName, ").(json.Marshaler); ok {")
+	gf.P("childData, childErr = jm.MarshalJSON()")
+	gf.P("} else {")
+	gf.P("childData, childErr = protojson.Marshal(x.", goName, ")")
+	gf.P("}")
 	gf.P("if childErr != nil {")
 	gf.P("return nil, childErr")
 	gf.P("}")
@@ -279,7 +285,19 @@ func (g *Generator) generateFlattenUnmarshalJSON(gf *protogen.GeneratedFile, ctx
 	gf.P("return err")
 	gf.P("}")
 	gf.P()
-	gf.P("return protojson.Unmarshal(remaining, x)")
+	gf.P("// protojson.Unmarshal clears x first, so the flattened children are set afterwards")
+	gf.P("if err := protojson.Unmarshal(remaining, x); err != nil {")
+	gf.P("return err")
+	gf.P("}")
+	for _, info := range ctx.FlattenInfos {
+		if info.Field.Message == nil {
+			continue
+		}
+		gf.P("if flat", info.Field.GoName, " != nil {")
+		gf.P("x.", info.Field.GoName, " = flat", info.Field.GoName)
+		gf.P("}")
+	}
+	gf.P("return nil")
 	gf.P("}")
 	gf.P()
 }
@@ -299,6 +317,7 @@ func (g *Generator) generateFlattenFieldUnmarshal(gf *protogen.GeneratedFile, in
 	childTypeName := childMsg.GoIdent.GoName
 
 	gf.P("// Extract flattened child fields for: ", field.Desc.Name())
+	gf.P("var flat", goName, " *", childTypeName)
 	gf.P("{")
 	gf.P("childRaw := make(map[string]json.RawMessage)")
 
@@ -318,9 +337,14 @@ func (g *Generator) generateFlattenFieldUnmarshal(gf *protogen.GeneratedFile, in
 	gf.P("if childErr != nil {")
 	gf.P("return childErr")
 	gf.P("}")
-	gf.P("x.", goName, " = &", childTypeName, "{}")
-	gf.P("// Use json.Unmarshal to invoke child's UnmarshalJSON (annotation composability)")
-	gf.P("if childErr = json.Unmarshal(childData, x.", goName, "); childErr != nil {")
+	gf.P("flat", goName, " = &", childTypeName, "{}")
+	gf.P("// Use the child's UnmarshalJSON if it has one (annotation composability), protojson otherwise")
+	gf.P("if um, ok := any(flat", goName, ").(json.Unmarshaler); ok {")
+	gf.P("childErr = um.UnmarshalJSON(childData)")
+	gf.P("} else {")
+	gf.P("childErr = protojson.Unmarshal(childData, flat", goName, ")")
+	gf.P("}")
+	gf.P("if childErr != nil {")
 	gf.P("return childErr")
 	gf.P("}")
 	gf.P("}")
